@@ -50,6 +50,8 @@ inline size_t faulty(size_t n, bool &hit) {
         case 1: return n - 1;
         case 2: return n > 1 ? 1 : 0;
         case 3: return n > 65536 ? n - 65536 : n / 2;     // short by exactly 2^16 (a count compared in 16 bits would call this complete)
+        case 5: return n + 1;                              // a count larger than asked: nonsense from the driver, certainly not a complete transfer
+        case 6: return (size_t)-5;                         // a negative errno squeezed through the size_t return type
         default: return n > 256 ? n - 256 : n / 3;
         }
     }
@@ -62,7 +64,7 @@ inline size_t med_read(void *dst, uint32_t addr, size_t n) {
     if (!m.in_nested) m.log.push_back({false, addr, n});
     if (!m.in_nested && ((uint64_t)addr + n > MSIZE || addr < m.lo || (uint64_t)addr + n > m.hi)) { m.outside = true; if ((uint64_t)addr + n > MSIZE) return 0; }
     bool hit; size_t k = faulty(n, hit);
-    memcpy(dst, m.mem + addr, k);
+    memcpy(dst, m.mem + addr, k > n ? 0 : k);   // an over-long count is a failed transfer: nothing was moved
     return k;
 }
 inline size_t med_write(uint32_t addr, const void *src, size_t n) {
@@ -72,6 +74,7 @@ inline size_t med_write(uint32_t addr, const void *src, size_t n) {
     m.log.push_back({true, addr, n});
     if ((uint64_t)addr + n > MSIZE || addr < m.lo || (uint64_t)addr + n > m.hi) { m.outside = true; if ((uint64_t)addr + n > MSIZE) return 0; }
     bool hit; size_t k = faulty(n, hit);
+    if (k > n) return k;                       // failed write reported through an over-long count: nothing written
     if (m.crash_budget >= 0 && (size_t)m.crash_budget < k) {
         memcpy(m.mem + addr, src, (size_t)m.crash_budget);   // torn write
         m.octets_written += (size_t)m.crash_budget;
